@@ -336,3 +336,131 @@ func VH_C07_X2_kill_inplace_shift() {
 	s.checkAllKnown("after-kill-and-restart", "F21", stale)
 	s.st.Close()
 }
+
+// checkRecovered checks the C06 statement on an already opened store.
+func (cm *crashModel) checkRecovered(s *scen, st *HStore, durable map[string]int32, where string) {
+	for _, key := range s.keys {
+		ki := NewKeyInfoFromBytes([]byte(key), 0, false)
+		p, _, err := st.Get(ki, false)
+		if err != nil {
+			vrt.Log("%s get %s: %v", where, key, err)
+		}
+		vrt.Assert(where+":get-answers", err == nil)
+		if err != nil {
+			continue
+		}
+		dv := abs32(durable[key])
+		if p == nil || p.Ver < 0 {
+			ok := durable[key] == 0
+			for _, h := range cm.hist[key] {
+				if h.ver < 0 && abs32(h.ver) >= dv {
+					ok = true
+				}
+			}
+			vrt.Assert(where+":miss-only-if-nothing-durable-or-deleted", ok)
+			if p != nil {
+				cmem.DBRL.GetData.SubSizeAndCount(p.CArray.Cap)
+				p.CArray.Free()
+			}
+			continue
+		}
+		written := false
+		for _, h := range cm.hist[key] {
+			if h.ver == p.Ver && len(h.body) == len(p.Body) {
+				written = vrt.Any(written, vrt.All(vrt.BytesEq(h.body, p.Body), h.flag == p.Flag))
+			}
+		}
+		vrt.Assert(where+":value-was-really-written-for-this-key", written)
+		vrt.Assert(where+":at-least-as-new-as-durable", p.Ver >= dv)
+		cmem.DBRL.GetData.SubSizeAndCount(p.CArray.Cap)
+		p.CArray.Free()
+	}
+}
+
+// adopt makes the reference model equal to what the recovered store serves (after a kill the
+// writes that were not durable may or may not have survived; later version numbers continue
+// from the recovered state).
+func (cm *crashModel) adopt(s *scen) {
+	for _, key := range s.keys {
+		ki := NewKeyInfoFromBytes([]byte(key), 0, false)
+		p, _, err := s.st.Get(ki, false)
+		m := &mval{}
+		if err == nil && p != nil {
+			m.ver = p.Ver
+			if p.Ver > 0 {
+				m.body, m.flag, m.written = append([]byte{}, p.Body...), p.Flag, true
+				m.vhash = Getvhash(m.body)
+			}
+			cmem.DBRL.GetData.SubSizeAndCount(p.CArray.Cap)
+			p.CArray.Free()
+		}
+		s.model[key] = m
+	}
+}
+
+var twoKillPoints = []string{"set:after-append", "set:after-tree", "flush:enter", "flush:written-not-detached", "flush:done", "hint:tmp-written", "hint:after-dump"}
+
+// C06-X1e: two kills. Run 1 writes and shuts down cleanly; run 2 works in the fresh head chunk
+// (more distinct keys than a hint split holds, so a split of the head chunk is dumped, possibly
+// before the chunk's data file exists) and is killed at a control point; run 3 recovers (C06
+// statement checked), writes and flushes again into the same chunk number and is killed at a
+// control point; run 4 recovers: every key reads a value really written for it, at least as new
+// as what was durable at the second kill.
+func VH_C06_X1_two_kills() {
+	scenSplitCap = 2
+	s := newScen(1024, false, "ka", "kb", "kc")
+	s.distinct = true
+	cm := newCrashModel("ka", "kb", "kc")
+	w := func(key string) { s.setS(key); cm.record(s, key) }
+	w("ka")
+	w("kb")
+	w("kc")
+	s.reopen(0) // clean shutdown: everything durable, next write opens a fresh chunk
+	cm.allDurable(s)
+	// ---- run 2, killed
+	p1 := twoKillPoints[vrt.Choice("point1", len(twoKillPoints))]
+	var snap1 string
+	var durable1 map[string]int32
+	done1 := atPoint(p1, vrt.Choice("occurrence1", 3), func() {
+		snap1 = vrt.SnapshotDir(s.dir)
+		durable1 = cm.snapshotDurable()
+	})
+	w("ka")
+	w("kb")
+	w("kc") // third distinct key: hint split 0 of the head chunk rotates
+	s.bkt().hints.dumpAndMerge(false)
+	if vrt.Bool("flush-in-run2") {
+		s.flush()
+		cm.allDurable(s)
+	}
+	w("ka")
+	s.bkt().hints.dumpAndMerge(false)
+	vrt.Assume(done1())
+	// ---- run 3 on the directory the first kill left
+	Conf.Home = snap1
+	s.dir = snap1
+	s.open()
+	cm.checkRecovered(s, s.st, durable1, "after-first-kill")
+	cm.adopt(s)
+	cm.durable = durable1
+	p2 := []string{"flush:done", "set:after-tree", "hint:after-dump", "flush:written-not-detached"}[vrt.Choice("point2", 4)]
+	var snap2 string
+	var durable2 map[string]int32
+	done2 := atPoint(p2, vrt.Choice("occurrence2", 2), func() {
+		snap2 = vrt.SnapshotDir(s.dir)
+		durable2 = cm.snapshotDurable()
+	})
+	w("ka")
+	if vrt.Bool("two-writes-in-run3") {
+		w("kb")
+	}
+	s.flush()
+	cm.allDurable(s)
+	w("kc")
+	s.flush()
+	cm.allDurable(s)
+	s.bkt().hints.dumpAndMerge(false)
+	vrt.Assume(done2())
+	// ---- run 4
+	cm.recoverAndCheck(s, snap2, durable2, true, "", false)
+}
